@@ -166,10 +166,32 @@ def cAllObj : List JVal → Bool
   | .obj _ :: t => cAllObj t
   | _ => false
 
-/-- `[]Icon`: array of objects, or null -/
+/-- The zero `Icon` as `encoding/json` writes it (a `null` array element leaves the zero struct). -/
+def zeroIcon : JVal :=
+  .obj (members [
+    member Icon_Source_name Icon_Source_omit none (.str []),
+    member Icon_MIMEType_name Icon_MIMEType_omit none (.str []),
+    member Icon_Sizes_name Icon_Sizes_omit none .null,
+    member Icon_Theme_name Icon_Theme_omit none (.str [])])
+
+def cIconList : List JVal → Except CErr (List JVal)
+  | [] => .ok []
+  | .obj kvs :: t => (cIconList t).map (.obj kvs :: ·)
+  | .null :: t => (cIconList t).map (zeroIcon :: ·)
+  | _ => .error .unmarshal
+
+/-- `[]Icon`: array of objects (or nulls), or null -/
 def cIcons : JVal → Except CErr (List JVal)
   | .null => .ok []
-  | .arr l => if cAllObj l then .ok l else .error .unmarshal
+  | .arr l => cIconList l
+  | _ => .error .unmarshal
+
+/-- `[]byte`: a base64 string (kept as its text), null, or an empty array.  The array-of-numbers
+form and non-canonical base64 text belong to the JSON library and are outside this model. -/
+def cBytes : JVal → Except CErr Bytes
+  | .null => .ok []
+  | .str s => .ok s
+  | .arr [] => .ok []
   | _ => .error .unmarshal
 
 def cSize : JVal → Except CErr (Option Int)
@@ -193,7 +215,7 @@ def setScalar (k : Bytes) (v : JVal) (w : WCS) : Except CErr WCS :=
   if k = wireContent_Type_name then do let s ← cString v; .ok { w with type := if v = .null then w.type else s }
   else if k = wireContent_Text_name then do let s ← cString v; .ok { w with text := if v = .null then w.text else s }
   else if k = wireContent_MIMEType_name then do let s ← cString v; .ok { w with mime := if v = .null then w.mime else s }
-  else if k = wireContent_Data_name then do let s ← cString v; .ok { w with data := s }
+  else if k = wireContent_Data_name then do let s ← cBytes v; .ok { w with data := s }
   else if k = wireContent_Resource_name then do let s ← cObjOpt v; .ok { w with resource := s }
   else if k = wireContent_URI_name then do let s ← cString v; .ok { w with uri := if v = .null then w.uri else s }
   else if k = wireContent_Name_name then do let s ← cString v; .ok { w with name := if v = .null then w.name else s }
